@@ -89,7 +89,7 @@ def real_equation_line(s):
 
 
 def compile_outcome(code):
-    """What parse_model's syntax check observes for one generated statement: ok se sw ow ox (+ exception class)."""
+    """What parse_model's syntax check observes for one generated statement: ok se ce sw ow ox (+ exception class)."""
     import warnings
     with warnings.catch_warnings(record=True) as w:
         warnings.simplefilter('always')
@@ -97,6 +97,8 @@ def compile_outcome(code):
             compile(code, '<string>', 'exec')
         except SyntaxError:
             return 'se', None
+        except (ValueError, RecursionError, MemoryError, OverflowError):
+            return 'ce', None              # caught by parse_model since fix 74fa5fb (ChkCaughtExn)
         except BaseException as e:      # noqa: BLE001
             return 'ox', type(e).__name__
         if len(w) == 0:
